@@ -120,11 +120,39 @@ func runC14(c c14Case) (bool, []string, error) {
 	}
 	if c.Edit != "" {
 		bad := applyEdit(doc, c)
+		fromString, strErr := avro.SchemaFromString(bad)
+		if c.EditPos%3 == 0 {
+			// the edited document presented the other way, in the header of a container
+			// file: the two routes read one grammar — refused by one, refused by the other;
+			// accepted by both, the same schema
+			labels = append(labels, "edited_document_by_both_routes")
+			file, _, werr := ref.WriteFile(ref.FileSpec{Schema: []byte(bad), Codec: "null"})
+			if werr != nil {
+				return false, labels, fmt.Errorf("VERIF-INCONCLUSIVE %v", werr)
+			}
+			f, err := os.CreateTemp("", "c14e-*.avro")
+			if err != nil {
+				return false, labels, fmt.Errorf("VERIF-INCONCLUSIVE %v", err)
+			}
+			name := f.Name()
+			f.Write(file)
+			f.Close()
+			fromHeader, hdrErr := avro.FileSchema(name)
+			os.Remove(name)
+			if (strErr == nil) != (hdrErr == nil) {
+				return false, labels, fmt.Errorf("an edited document is judged differently by the two parsing routes: SchemaFromString: %v; FileSchema on a header holding the same bytes: %v\n%q", strErr, hdrErr, bad)
+			}
+			if strErr == nil {
+				if d := fromLib(fromHeader).Diff(fromLib(fromString), ""); d != "" {
+					return false, labels, fmt.Errorf("an edited document parses differently from a string and from a file header: %s\n%q", d, bad)
+				}
+			}
+		}
 		if json.Valid([]byte(bad)) {
-			return false, []string{"edit_still_valid_json"}, nil
+			return false, append(labels, "edit_still_valid_json"), nil
 		}
 		labels = append(labels, "malformed_"+c.Edit)
-		if _, err := avro.SchemaFromString(bad); err == nil {
+		if strErr == nil {
 			return false, labels, fmt.Errorf("malformed JSON accepted without error: %q", bad)
 		}
 		return false, labels, nil
@@ -316,7 +344,7 @@ func drawC14(t *rapid.T) c14Case {
 	if rapid.IntRange(0, 3).Draw(t, "malformed") == 0 {
 		c.Edit = rapid.SampledFrom([]string{"truncate", "delete", "insert", "replace"}).Draw(t, "edit")
 		c.EditPos = rapid.IntRange(0, 1<<20).Draw(t, "pos")
-		c.EditCh = rapid.SampledFrom([]byte{'{', '}', '[', ']', '"', ',', ':', '\\', 'x', '0', ' ', 0, 0xff, '\n'}).Draw(t, "ch")
+		c.EditCh = rapid.SampledFrom([]byte{'{', '}', '[', ']', '"', ',', ':', '\\', 'x', '0', ' ', 0, 0xff, '\n', 0xe9, 0xc3, 0x80}).Draw(t, "ch")
 	}
 	return c
 }
